@@ -173,6 +173,17 @@ class DelayEval(object):
                     hi |= v[1].forms
                 return (MinOf(lo), MinOf(hi))
             raise Unsupported('max(...) gives no upper bound below its largest argument')
+        if isinstance(e, ast.Call) and len(e.args) == 2 and not e.keywords:
+            ts = run.types.call_targets(e, self.g.ctx)
+            names = set(t.name for t in ts if t.kind == 'ext')
+            if names == {'random.uniform'}:
+                # uniform(a, b) = a + (b - a) * random(): somewhere in [a, b]
+                a_, b_ = self.ev(n, e.args[0]), self.ev(n, e.args[1])
+                return (a_[0], b_[1])
+            if names & {'random.randint', 'random.randrange'}:
+                raise Unsupported('integer-only: %s accepts whole numbers only - with a float min_wait / max_wait (both are '
+                                  'documented as floats) it raises TypeError / ValueError at the first back-off, which ends '
+                                  'persist() by itself' % U(e.func))
         raise Unsupported('expression %s' % U(e))
 
     def addm(self, a, b):
@@ -420,7 +431,8 @@ def check(run):
         except Unsupported as e:
             # max(...) / wrong shapes that are *evaluable but unbounded* are violations; unknown syntax is exit 2
             msg = str(e)
-            if msg.startswith('max(') or 'not provably non-negative' in msg or msg.startswith('float-overflow'):
+            if msg.startswith('max(') or 'not provably non-negative' in msg or msg.startswith('float-overflow') \
+                    or msg.startswith('integer-only'):
                 R.ob('C16.bounds', 'delay upper bound', False, 'delay %s: %s' % (U(arg), msg), func=FN, node=b.ast)
                 continue
             raise AnalysisError('C16.bounds cannot evaluate the delay expression: %s' % msg)
@@ -476,6 +488,13 @@ def check(run):
     for w in incs:
         R.ob('C16.growth', 'increment outside the event loop', w not in body_nodes,
              'retries incremented per event instead of per attempt', func=FN, node=w.ast)
+        # the reset on ready must still be in force when the delay is computed: the attempt is counted before it starts
+        late = [b for (b, arg) in delay_defs if b in g.succ_reach(w, avoid=set(loopheads) | {fornode}, skip_edge=nx)
+                and w in g.succ_reach(fornode, avoid=set(loopheads), skip_edge=nx)]
+        R.ob('C16.growth', 'the attempt is counted before it runs', not late,
+             'retries is incremented between the connection loop and the back-off computation: after an attempt that reached '
+             'Ready (retries reset to 0) the delay is drawn with 2**1 instead of 2**0, and every later one is a doubling too '
+             'high', func=FN, node=w.ast, construct='increment after the attempt')
     if loopheads:
         lh = loopheads[0]
         ok = all_paths_pass(g, normal_succs(lh), incs, [lh], skip_edge=nx) and bool(incs)
